@@ -871,7 +871,8 @@ var guardTable = []guardSpec{
 	{"cache", "RowCache", "indexes", "mutex", "", false},
 	{"cache", "TableCache", "cache", "mutex", "", false},
 	{"cache", "TableCache", "dbModel", "mutex", "", false},
-	{"cache", "eventProcessor", "handlers", "handlersMutex", "", false},
+	// optional: the handler list may live in a small type of its own that bundles it with its lock
+	{"cache", "eventProcessor", "handlers", "handlersMutex", "", true},
 	{"server", "OvsdbServer", "monitors", "monitorMutex", "", false},
 	{"server", "connectionMonitors", "monitors", "monitorMutex", "OvsdbServer", false},
 	{"server", "OvsdbServer", "models", "modelsMutex", "", false},
